@@ -42,7 +42,8 @@ Print Assumptions C06_sync_exact_pods.
 
 (* the same on the world (syncJob proper) *)
 Theorem C06_sync_job_exact_pods : forall w u w' e wr,
-  sync_job w u [] = (w', e, wr) -> pg_admitted (v_pg w) = true -> st_phase (v_st w) <> PhNone ->
+  sync_job w u [] = (w', e, wr) -> c_vdel (v_ctl w) = false -> c_queue (v_ctl w) = true ->
+  pg_admitted (v_pg w) = true -> st_phase (v_st w) <> PhNone ->
   v_pods w = w_pods w -> NoDup (pod_ids (w_pods w)) ->
   e = false /\
   forall t i,
@@ -76,6 +77,58 @@ Theorem C06_faulty_sync_partial : forall fixed sp P F, NoDup (pod_ids P) ->
   partial sp P (a_pods (sync_pods_gen fixed sp P P F)).
 Proof. exact faulty_sync_partial. Qed.
 Print Assumptions C06_faulty_sync_partial.
+
+(* controller restart: whatever order the informers deliver pods, job and PodGroup in
+   (pods before the job included: the job cache keeps them in a placeholder and
+   cache.Add attaches the job to it), the controller ends up seeing exactly what the
+   API server holds *)
+Theorem C06_restart_any_delivery_order : forall w order,
+  In order delivery_orders -> run w (ORestart :: order) = synced w.
+Proof. exact restart_any_delivery_order. Qed.
+Print Assumptions C06_restart_any_delivery_order.
+
+Theorem C06_pods_before_job_are_kept : forall w,
+  v_pods (run w [ORestart; OSyncPods; OSyncJob]) = w_pods w /\
+  c_job (v_ctl (run w [ORestart; OSyncPods; OSyncJob])) = true.
+Proof. exact pods_before_job_are_kept. Qed.
+Print Assumptions C06_pods_before_job_are_kept.
+
+(* crash / partial failure of a sync at any point, controller restart, deliveries in any
+   order, retry: same pods as the undisturbed sync *)
+Theorem C06_crash_restart_world : forall w u F w1 e1 wr1 order,
+  sync_job w u F = (w1, e1, wr1) ->
+  c_vdel (v_ctl w) = false -> c_queue (v_ctl w) = true ->
+  pg_admitted (v_pg w) = true -> st_phase (v_st w) <> PhNone ->
+  v_pods w = w_pods w -> v_spec w = w_spec w ->
+  NoDup (map t_name (s_tasks (v_spec w))) -> NoDup (pod_ids (w_pods w)) ->
+  In order delivery_orders ->
+  let w2 := run w1 (ORestart :: order) in
+  c_job (v_ctl w2) = true /\ v_pods w2 = w_pods w2 /\ v_spec w2 = v_spec w /\
+  forall t i, find_pod t i (pass true (v_spec w2) (v_pods w2)) = find_pod t i (pass true (v_spec w) (w_pods w)).
+Proof. exact crash_restart_world. Qed.
+Print Assumptions C06_crash_restart_world.
+
+(* createOrUpdatePodGroup with a lister that shows what the API server holds: for EVERY
+   fault position (the create / update call refused or not) "returned OK" implies that the
+   PodGroup exists and mirrors the spec; an error leaves the API server untouched; a
+   refused write is reported unless no write was needed *)
+Theorem C06_podgroup_mirrors_spec_ok : forall lister api sp xs jp fail api',
+  NoDup (map t_name (s_tasks sp)) -> lister = api ->
+  create_or_update_pg lister api sp xs jp fail = (api', false) ->
+  exists g, api' = Some g /\ pg_mirrors g sp xs jp.
+Proof. exact podgroup_mirrors_spec_ok. Qed.
+Print Assumptions C06_podgroup_mirrors_spec_ok.
+
+Theorem C06_pg_error_no_change : forall lister api sp xs jp fail api',
+  create_or_update_pg lister api sp xs jp fail = (api', true) -> api' = api.
+Proof. exact pg_error_no_change. Qed.
+Print Assumptions C06_pg_error_no_change.
+
+Theorem C06_pg_refused_write_reported : forall lister api sp xs jp api' err,
+  create_or_update_pg lister api sp xs jp true = (api', err) ->
+  err = true \/ (api' = api /\ exists g, lister = Some g /\ pg_update g sp xs jp = g).
+Proof. exact pg_refused_write_reported. Qed.
+Print Assumptions C06_pg_refused_write_reported.
 
 (* after createOrUpdatePodGroup (create, or update after any scale up/down):
    MinMember, every task's MinTaskMember, PriorityClassName, MinResources mirror the spec *)
@@ -146,3 +199,20 @@ Example C06_nonvacuous_minres :
   Forall ptask_ok l /\ 0 <= 4 <= sum_replicas l /\
   calc_min_resources_sorted 4 l (total_min l) = mkR 4 (3 * 100 + 250) (3 * 64).
 Proof. exact minres_example. Qed.
+
+Example C06_nonvacuous_crash_restart :
+  let w := init_world ex_spec (mkStatus PhRunning 0 0 2 c0 0 [] false false) ex_pods (Some PgRunning) in
+  exists w1, sync_job w URunningSync [FCreate 1 0; FDelete 1 2] = (w1, true, false) /\
+    let w2 := run w1 [ORestart; OSyncPods; OSyncJob; OSyncPg] in
+    c_job (v_ctl w2) = true /\ v_pods w2 = w_pods w1 /\
+    pass true (v_spec w2) (v_pods w2) = pass true ex_spec ex_pods.
+Proof. exact crash_restart_world_example. Qed.
+
+Example C06_nonvacuous_podgroup_ok :
+  let sp := mkSpec [mkTask 1 3 (Some 1) [] None; mkTask 2 2 None [] None] 4 None 3 [] in
+  let xs := [mkExtra 100 64 1; mkExtra 250 0 2] in
+  let g0 := pg_create (mkSpec [mkTask 1 2 (Some 1) [] None; mkTask 2 2 None [] None] 3 None 3 []) xs 0 in
+  create_or_update_pg (Some g0) (Some g0) sp xs 2 false = (Some (pg_update g0 sp xs 2), false) /\
+  create_or_update_pg (Some g0) (Some g0) sp xs 2 true = (Some g0, true) /\
+  pg_update g0 sp xs 2 <> g0.
+Proof. exact podgroup_ok_example. Qed.
